@@ -132,7 +132,5 @@ MUTANTS += [
  {"id": "revert-F-S3", "props": ["C11"], "edits": [("pymtl3/passes/sim/DynamicSchedulePass.py", "        scc_blks = [ unwrap.get( x, x ) for x in scc ]", "        scc_blks = list( scc )"), ("pymtl3/passes/mamba/Mamba2020Pass.py", "      scc_blks = [ unwrap.get( x, x ) for x in scc ]", "      scc_blks = list( scc )")]},
  {"id": "revert-F-Y5", "props": ["C12"], "edits": [("pymtl3/passes/backends/yosys/translation/structural/YosysStructuralTranslatorL3.py", 'f"{ifc_idx}[{i}]" )', 'f"[{i}]{ifc_idx}" )')]},
  {"id": "revert-F-Y5b", "props": ["C12"], "edits": [("pymtl3/passes/backends/yosys/translation/structural/YosysStructuralTranslatorL4.py", 'f"{c_idx}[{i}]" )', 'f"[{i}]{c_idx}" )')]},
- {"id": "revert-F-N3", "props": ["C13"], "edits": [("pymtl3/passes/rtlir/util/utility.py", "    if isinstance(obj, Bits):
-      return f"Bits{obj.nbits}_{obj}"
-", "")]},
+ {"id": "revert-F-N3", "props": ["C13"], "edits": [("pymtl3/passes/rtlir/util/utility.py", "    if isinstance(obj, Bits):\n", "    if False:\n")]},
 ]
